@@ -23,9 +23,16 @@ def random_record(rng, n=None, nfeat=None, alphabet="ACGT"):
         st = rng.choice([1, -1, 1, -1, None])
         shape = rng.random()
         parts = []
-        for _ in range(1 if shape < 0.6 else rng.randint(2, 3)):
+        nparts = 1 if shape < 0.6 else rng.randint(2, 3)
+        mixed = nparts > 1 and rng.random() < 0.25        # a join whose parts lie on different strands
+        for _ in range(nparts):
+            if mixed:
+                st = rng.choice([1, -1])
             a = rng.randrange(n)
             L = rng.randint(1, n)
+            if rng.random() < 0.08:          # a site between two bases ("34^35"): zero letters
+                parts.append(FeatureLocation(a, a, strand=st))
+                continue
             if rng.random() < 0.1:
                 a, L = 0, n
             if a + L <= n or rng.random() < 0.5:
@@ -36,7 +43,7 @@ def random_record(rng, n=None, nfeat=None, alphabet="ACGT"):
         loc = parts[0] if len(parts) == 1 else CompoundLocation(parts)
         ftype = rng.choice(["CDS", "misc_feature", "source", "promoter"])
         feats.append(SeqFeature(loc, type=ftype, id="f%d" % len(feats),
-                                qualifiers={"label": ["L%d" % rng.randrange(99)], "note": ["n"]}))
+                                qualifiers={"label": ["L%d" % rng.randrange(99)], "note": ["n"] if rng.random() < 0.7 else "bare string"}))
     kw = {}
     if rng.random() < 0.7:
         kw["letter_annotations"] = {"q": [rng.randrange(100) for _ in range(n)]}
